@@ -726,6 +726,15 @@ fn op_run(req: &J) -> J {
     }
     INTERRUPT_AT.with(|v| v.borrow_mut().clear());
 
+    // Optionally do what `:abort` does, then `:resume` once.
+    if req["abort"].as_bool().unwrap_or(false) {
+        env.stack.pop_to_toplevel();
+        frames.push(frames_json(&env));
+        let r = eval(&mut env, &session).map(Some);
+        outcomes.push(describe(r, &env));
+        frames.push(frames_json(&env));
+    }
+
     let out = stdout_buf.lock().unwrap().clone();
     let err = stderr_buf.lock().unwrap().clone();
     json!({"outcomes": outcomes, "frames": frames, "stdout": out, "stderr": err, "ticks": env.ticks})
